@@ -492,7 +492,9 @@ class Bus (objects.DBusObject):
         for item in rule.split(','):
             k, v = item.split('=')
 
-            value = v[1:-1]
+            # blanks around a key or a quoted value are not part of them
+            k = k.strip()
+            value = v.strip()[1:-1]
 
             if k == 'type':
                 k = 'mtype'
